@@ -251,6 +251,11 @@ def explore(ctx):
                 fx, fy = (Fr(rng.choice([1, 4, 5, 6, 7]), 8) for _ in range(2))
                 g["contours"] = [[(x + fx, y + fy, t) for x, y, t in c] for c in g["contours"]]
             ctx.klass("otf with roundTolerance < 1/2 and fractional extrema")
+        if flavor == "otf":
+            # every charstring optimisation level: only level 2 (cffsubr) saves and reloads the font on the way, so that
+            # fontTools recomputes the boxes; at levels 0 and 1 the RETURNED head / FontBBox are ufo2ft's own
+            kw["optimizeCFF"] = [2, 0, 1][(i // 2) % 3]
+            ctx.klass("otf optimizeCFF=%d" % kw["optimizeCFF"])
         n3 = [g["name"] for g in desc["glyphs"] if g["name"] != ".notdef"][:3]
         renamed = i % 6 == 2 and not vertical and len(n3) == 3
         if renamed:
@@ -281,6 +286,7 @@ def explore(ctx):
             head0 = tt["head"]
             returned_head = (head0.xMin, head0.yMin, head0.xMax, head0.yMax)
             returned_os2 = (tt["OS/2"].usFirstCharIndex, tt["OS/2"].usLastCharIndex)
+            returned_fontbbox = tuple(tt["CFF "].cff.topDictIndex[0].FontBBox) if "CFF " in tt else None
             buf = io.BytesIO(); tt.save(buf); data1 = buf.getvalue()
             tt2 = TTFont(io.BytesIO(data1))
             buf2 = io.BytesIO(); tt2.save(buf2); data2 = buf2.getvalue()
@@ -306,6 +312,12 @@ def explore(ctx):
         cases.append(g_case(ms, tt3["hhea"], (head.xMin, head.yMin, head.xMax, head.yMax)))
         meta.append(dict(case, level="reloaded font", advances=advs))
         # ---- direct, unmodelled
+        if returned_fontbbox is not None and "roundTolerance" not in kw:
+            bxs = [m[3] for m in ms if m[3] is not None]
+            union = (min(b[0] for b in bxs), min(b[1] for b in bxs), max(b[2] for b in bxs), max(b[3] for b in bxs)) if bxs else (0, 0, 0, 0)
+            if tuple(returned_fontbbox) != union:
+                ctx.spec_failure(dict(case, level="CFF FontBBox as returned by ufo2ft"),
+                                 "FontBBox of the returned CFF table is %r, the union of the glyph boxes is %r" % (returned_fontbbox, union))
         maxp = tt3["maxp"]
         if maxp.numGlyphs != len(ms):
             ctx.spec_failure(case, "maxp.numGlyphs %d != %d glyphs" % (maxp.numGlyphs, len(ms)))
